@@ -32,7 +32,8 @@ OUTSIDE = ("that the CMS signatures verify under the installed keys and that the
            "uses the real signer but has no independent CMS verifier) - decided instead: WHAT is signed; SRK table / fuse hash "
            "(C03 covers the RoT hash arithmetic for MBI families only); XMCD segments; start addresses and IVT offsets other "
            "than those of the six configurations; AES-CCM itself (ideal cipher stub)")
-STUBS = ["spsdk.crypto.cms.cms_sign -> recorder returning a fixed-size blob (symbolic run)",
+STUBS = ["spsdk.crypto.cms.cms_sign -> recorder returning a fixed-size blob (symbolic run); cms.sign_data itself is run on a "
+         "stub provider (signdata/* cases) with the DER model of C08",
          "AES-CCM -> ideal invertible cipher + uninterpreted tag function of (key, nonce, data, tag length)",
          "BinaryImage.load_binary_image -> the application under test", "random nonce -> symbolic bytes"]
 MUST_REACH = ["hab\\..*", "csf\\..*", "parse\\..*", "enc\\..*"]
@@ -80,9 +81,14 @@ def setup(symbolic):
     import spsdk.image.hab.segments as HS
     import spsdk.image.commands as CMD
     import spsdk.image.hab.hab_container as HC
+    global CMSM, KEYS, K8
+    import spsdk.crypto.cms as CMSM
+    import spsdk.crypto.keys as KEYS
+    from harness import c08_keys as K8
     if symbolic:
         IM.BinaryImage.__str__ = lambda self: "<image>"
         IM.BinaryImage.draw = lambda self, *a, **k: ""
+        K8.install_der_model(KEYS, K8.ENV)
 
 
 def make_app(env, L, entry):
@@ -273,9 +279,44 @@ def h_build(env, c):
                  "parse.reexport_identical_in_front_of_the_csf")
 
 
+def h_signdata(env, c):
+    """cms.sign_data with a signature provider: a raw ECDSA signature r||s of every supported curve goes into the CMS as
+    the strict DER encoding of the same (r, s); an RSA signature goes in unchanged"""
+    K8.ENV[0] = env
+    n = c["siglen"]
+    raw = env.bytes("raw_signature", n)
+    from spsdk.crypto.signature_provider import SignatureProvider
+
+    class Prov(SignatureProvider):
+        identifier = "c07"
+
+        def sign(self, data):
+            return raw
+
+        def get_signature(self, data, encoding=None):
+            return raw
+
+        @property
+        def signature_length(self):
+            return n
+    half = n // 2
+    r_items, s_items = list(raw[:half]), list(raw[half:])
+    if c["kind"] == "ecc":
+        # full-width r and s (top bytes non-zero); shorter values are the subject of the recorded C08 finding
+        env.assume(env.And(r_items[0] != 0, s_items[0] != 0))
+    out = CMSM.sign_data(b"to be signed", None, Prov())
+    if c["kind"] == "rsa":
+        env.prove_eq(out, raw, "csf.rsa_signature_enters_the_cms_unchanged")
+        return
+    want = K8.model_encode(env, r_items, s_items)
+    env.prove_eq(out, want if env.symbolic else bytes(want), "csf.ecdsa_signature_enters_the_cms_as_der_of_the_same_r_s")
+
+
 def cases(tier):
     q = tier == "quick"
     cs = []
+    for n, kind in ((64, "ecc"), (96, "ecc"), (132, "ecc"), (256, "rsa"), (384, "rsa"), (512, "rsa")):
+        cs.append({"id": f"signdata/{kind}/siglen={n}", "h": "signdata", "siglen": n, "kind": kind})
     lens = (0x105, 0x1000, 0x2FF8, 0x2FF1) if q else tuple(range(0x101, 0x131)) + (0x1000, 0x2FF8, 0x2FF1)
     for name in CONFIGS:
         for L in lens:
